@@ -32,7 +32,7 @@ TIERS = {
         "sanity": "MC_Glob_sanity.cfg",
         "gen": [("MC_Glob_quickA.cfg", ["--real-first", "7", "--real-stride", "5", "--noglob-trees", "2"]),
                 ("MC_Glob_quickB.cfg", ["--real-first", "0", "--real-stride", "6", "--noglob-trees", "1"])],
-        "random": (60, 40),
+        "random": (40, 40),
         "timeout": 600,
     },
     "thorough": {
@@ -40,7 +40,7 @@ TIERS = {
         "gen": [("MC_Glob_thorA.cfg", ["--real-first", "7", "--real-stride", "4", "--noglob-trees", "2"]),
                 ("MC_Glob_thorB.cfg", ["--real-first", "0", "--real-stride", "10", "--noglob-trees", "1"]),
                 ("MC_Glob_thorC.cfg", ["--real-first", "7", "--real-stride", "4", "--noglob-trees", "1"])],
-        "random": (1500, 40),
+        "random": (400, 40),
         "timeout": 3000,
     },
 }
@@ -107,6 +107,8 @@ def run(tier):
 
     def do_sanity():
         try:
+            # calibration examples from the manual and path-p.sh (ASSUMEs)
+            sanity["c"] = vlib.tlc("Calib_Glob", "Calib_Glob.cfg", workers=1, timeout=cfgs["timeout"])
             sanity["r"] = vlib.tlc("MC_Glob", cfgs["sanity"], workers=4, timeout=cfgs["timeout"], tool_seed=seed)
         except Exception as e:  # reported below
             sanity["e"] = e
@@ -183,6 +185,7 @@ def run(tier):
     th.join()
     if "e" in sanity:
         raise sanity["e"]
+    vlib.tlc_must_pass(sanity["c"], "calibration examples Calib_Glob")
     vlib.tlc_must_pass(sanity["r"], f"oracle sanity {cfgs['sanity']}")
     vlib.log(f"[tlc] sanity theorems hold on {sanity['r'].distinct} words ({sanity['r'].wall:.1f}s)")
     states += sanity["r"].distinct
